@@ -52,12 +52,25 @@ def run(chk, orch):
                 # two such genes, each with one further read that sticks out of the annotated span on the other side (less far)
                 spec["outside_exon"] = 2
             spec["softmask"] = 1 if k % 4 in (2, 3) else 0      # soft-masked (lower-case) stretches of the reference
+            if k % 4 == 0:
+                # genes whose introns are annotated on BOTH strands (a mirror gene with the same exons on the other strand) and that
+                # have unannotated isoforms: the strand of those comes from the genome, whatever the string hash seed
+                spec.update(mirror=1, mirror_novel=1, novel=8, novel_cov=6, genes_per_chr=4)
             if k % 2 == 1:
                 # unannotated loci with non-canonical introns and polyA / polyT reads: the strand of their models rests on the
                 # tail evidence alone (reported only under these settings)
                 spec.update(novel_locus=2, polya=1)
                 opts["report_canonical"] = ["all", "only_stranded"][(k // 2) % 2]
             cell = common.random_cell(chk.rng)
+            if k % 4 == 0:
+                cell["hashseed"] = [1, 4, 7, 2, 5, 3, 6, 0][(k // 4) % 8]      # these workloads under pinned, different hash seeds
+                if k < 8:
+                    # one pinned instance of the structure (5-exon genes on '+' with an exon-skipping isoform, all mirrored)
+                    import random as _random
+                    spec = workload.random_spec(_random.Random(3))
+                    spec.update(antisense=1, noncanon=0, novel=8, novel_cov=6, genes_per_chr=4, mirror=1, mirror_novel=1, n_chr=3,
+                                seed=77, polya=1)
+                    opts = {"check_canonical": True, "annotated": True}
             a = common.job_args(spec, opts, cell, oracles=["canonical"])
             orch.submit(cell["hashseed"], "scenarios:pipeline", a, tag=("p", k))
             jobs[k] = (spec, opts, cell, a)
